@@ -22,6 +22,16 @@ plus per (k, pool):  setup  unsafe_setup(k) itself equals the definition (g[i] =
 For all s with s^(2^k) != 1 (the path condition of unsafe_setup's inversions; s = omega^j makes the setup panic).
 A VIOLATION is replayed by re-running the same real code in concrete mode (vals: rnd1 = a point where the residual
 does not vanish) and comparing the concrete exponents with the definition evaluated in Python.
+
+Second family (`sx paramsio`, clause "writing then reading a parameter set yields an object that serialises to the same
+bytes", restricted to what SymE can see: framing, order, counts, and independence of the rayon pool): per (k, format,
+pool t) the REAL write_custom runs inside local rayon pools of 1 and of t threads on the same parameters, the REAL
+read_custom reads the t-thread bytes back inside the t-thread pool, and the result is re-written:
+  bytes    Ok, byte string equal to the 1-thread one, and (decoded by record layout, normalised as above) equal to
+           k, [s^i], [l_j(s)], [1], [s]
+  read     Ok, everything consumed, same g_lagrange / g2 / s_g2 terms, max_k = k
+  rewrite  same bytes again (1 thread and t threads)
+Replay: the same in concrete mode AND `sx paramsio_real` = the same sequence on ParamsKZG<Bls12> (real curve points).
 """
 import random
 from concurrent.futures import ThreadPoolExecutor
@@ -248,18 +258,188 @@ def check_pair(run, k, kp, t):
         settle(run, obs[c], v, c, {"kind": "c17-params", "k": k, "kp": kp, "threads": t, "clause": c})
 
 
+# ------------------------------------------------------------------ write_custom / read_custom under thread pools
+# `sx paramsio`: parameters for k with symbolic secret (built under a 1-thread pool: deterministic arena); the REAL
+# write_custom runs inside a local rayon pool of 1 thread and of t threads on the SAME object, the REAL read_custom
+# (its Processed branch uses `parallelize` too) reads the t-thread bytes back inside the t-thread pool, and the
+# result is written again. SymE points go through the same calls as real curve points: `<Exp<1> as
+# ProcessedSerdeObject>::write(writer, format)`, `<Exp<1> as GroupEncoding>::to_bytes/from_bytes`, with
+# `byte_length::<Exp<1>>(Processed)` = Repr length = 40 bytes (one term record). A parallel writer that splits the
+# BYTE buffer evenly over the pool is aligned to 40-byte records only if 40 * 2^k / t is a multiple of 40: never for
+# t = 3 and t = 5, for t = 4 only when k >= 2 (for the 48-byte BLS12-381 G1 encoding: never for 3 and 5, t = 4 only when
+# k >= 2 as well), so pools {3, 5} break alignment for every k and pool 4 for k < 2; pool 1 is the reference.
+F_IO = [f"{KP}::ParamsKZG::write_custom", f"{KP}::ParamsKZG::read_custom", "proofs/src/utils/arithmetic.rs::parallelize",
+        "proofs/src/utils/helpers.rs::byte_length", f"{KP}::ParamsKZG::unsafe_setup"]
+IO_WHAT = {
+    "bytes": "write_custom under a pool of t threads returns Ok and emits the same byte string as under 1 thread; the bytes are header k, "
+             "then the records of [s^i], [l_j(s)], g2 = [1], s_g2 = [s] in this order",
+    "read": "read_custom of those bytes (inside the same pool) returns Ok, consumes everything, and yields parameters with the same "
+            "g_lagrange, g2, s_g2 (terms equal) and max_k = k",
+    "rewrite": "write_custom of the re-read parameters emits the same bytes again (under 1 thread and under t threads); with `bytes` this also "
+               "pins the re-read monomial basis g",
+}
+IO_KEY = {"bytes": "params-io:write-pool-independent", "read": "params-io:read-of-write", "rewrite": "params-io:rewrite-same-bytes"}
+TAG_G1, TAG_G2 = 0xE1, 0xE2
+
+
+class IoView:
+    def __init__(self, d):
+        self.d, self.k = d, d["k"]
+        self.dag = symf.Dag(d["arena"])
+        self.sname = self.dag.var_name(d["s"])
+        self.ring = symf.Ring(self.sname or "rnd1", 1 << self.k)
+        self.memo = {}
+
+    def nf(self, i):
+        return self.dag.normal(self.ring, i, self.memo)
+
+    spow = View.spow
+    lagrange = View.lagrange
+
+
+def io_records(v, hexbytes):
+    """-> (header k, [(tag, id)], problem)"""
+    b = bytes.fromhex(hexbytes)
+    rec = v.d["rec"]
+    if len(b) < 4 or (len(b) - 4) % rec:
+        return None, [], f"{len(b)} bytes is not a header plus whole records"
+    out = []
+    for o in range(4, len(b), rec):
+        r = b[o:o + rec]
+        if any(r[5:]):
+            return None, [], f"record at offset {o} has non-zero padding"
+        out.append((r[0], int.from_bytes(r[1:5], "little")))
+    return int.from_bytes(b[:4], "little"), out, None
+
+
+def io_pairs(v, r, clause, by_value=None):
+    """(pairs, problem) of one clause for one pool run r. by_value: concrete replay (compare values, not coefficients)"""
+    n = 1 << v.k
+    if clause == "bytes":
+        if r.get("write_t_err") or r.get("write_1_err"):
+            return [(0, 1)], f"write_custom: {r.get('write_t_err') or r.get('write_1_err')}"
+        bt, b1 = r["bytes_t"], r["bytes_1"]
+        pairs = [(len(bt) // 2, 4 + (2 * n + 2) * v.d["rec"]), (len(bt), len(b1)), (1 if r["bytes_equal"] else 0, 1)]
+        pairs += [(x, y) for x, y in zip(bytes.fromhex(bt), bytes.fromhex(b1))]
+        kh, recs, problem = io_records(v, bt)
+        if problem:
+            return pairs + [(0, 1)], problem
+        pairs.append((kh, v.k))
+        pairs.append((len(recs), 2 * n + 2))
+        tags = [TAG_G1] * (2 * n) + [TAG_G2] * 2
+        pairs += [(t, e) for (t, _), e in zip(recs, tags)]
+        if [t for t, _ in recs] != tags[:len(recs)] or len(recs) != 2 * n + 2:
+            bad = next((i for i, ((t, _), e) in enumerate(zip(recs, tags)) if t != e), len(recs))
+            return pairs, f"record {bad} of the bytes written under {r['threads']} threads is not a point record (tag {recs[bad][0] if bad < len(recs) else None})"
+        ids = [i for _, i in recs]
+        spec = [v.spow(i) for i in range(n)] + [v.lagrange(v.k, j) for j in range(n)] + [v.ring.const(1), v.spow(1)]
+        if by_value is not None:
+            ev = lambda nf: v.ring.evaluate(nf, by_value)
+            pairs += [(ev(v.nf(i)), ev(sp)) for i, sp in zip(ids, spec)]
+        else:
+            pairs += root_facts(root(consts(), v.k), n)
+            for i, sp in zip(ids, spec):
+                pairs += eq_pairs(v.nf(i), sp)
+        # the accessors see the same terms as the bytes
+        pairs += [(a, b) for a, b in zip(ids[n:2 * n], v.d["gl_acc"])] + [(ids[2 * n], v.d["g2_acc"]), (ids[2 * n + 1], v.d["s_g2_acc"])]
+        return pairs, None
+    rd = r.get("read")
+    if rd is None:
+        return [(0, 1)], f"nothing to read: write_custom under {r['threads']} threads: {r.get('write_t_err')}"
+    if rd["status"] != "ok":
+        return [(0, 1)], f"read_custom of the bytes written under {r['threads']} threads: {rd['status']} {rd.get('msg', '')[:160]}"
+    if clause == "read":
+        return [(rd["unread"], 0), (1 if rd["same_accessors"] else 0, 1), (rd["max_k"] if isinstance(rd["max_k"], int) else -1, v.k)], None
+    if clause == "rewrite":
+        problem = f"re-write: {rd['rewrite_err']}" if rd.get("rewrite_err") else None
+        return [(1 if rd["rewrite_1_equal"] else 0, 1), (1 if rd["rewrite_t_equal"] else 0, 1)], problem
+    raise ValueError(clause)
+
+
+def settle_io(run, ob, v, r, clause, payload):
+    pairs, problem = io_pairs(v, r, clause)
+    if v.ring.atoms:
+        return ob.set(INCONCLUSIVE, f"{len(v.ring.atoms)} opaque inverse atoms left after normalisation")
+    q = solvers.solve(symf.residual_smt(pairs), timeout=60)
+    tw_pairs = list(pairs[:40])
+    tw_pairs[-1] = (tw_pairs[-1][0], (tw_pairs[-1][1] + 1) % P)
+    tw = solvers.solve(symf.residual_smt(tw_pairs), timeout=60)
+    ob.queries += 2
+    ob.vacuity = tw.status == "sat"
+    if q.status == "unsat" and ob.vacuity and not problem:
+        return ob.set(HOLDS, f"{len(pairs)} equalities (bytes, record structure, coefficients)", solver=q.solver, solver_s=q.time_s + tw.time_s)
+    if q.status == "sat" or problem:
+        bad = sum(1 for a, b in pairs if a != b)
+        rnd = random.Random(1000 * core.seed() + 31 * v.k + r["threads"])
+        payload = dict(payload, s=hex(rnd.randrange(2, P)), differing=bad)
+        if replay(payload):
+            return ob.set(VIOLATION, (problem or f"{bad} of {len(pairs)} equalities fail") + "; reproduced by the concrete re-run and on the real BLS12-381 stack",
+                          solver=q.solver, solver_s=q.time_s, replay=_wr(run, ob, payload))
+        return ob.set(INCONCLUSIVE, f"mismatch ({problem or bad}) did not reproduce (concrete re-run + real BLS12-381 stack)")
+    return ob.set(INCONCLUSIVE, f"solver {q.status} / twin {tw.status}")
+
+
+def check_io(run, k, fmt, pools):
+    obs = {}
+    for t in pools:
+        for c in ("bytes", "read", "rewrite"):
+            ob = core.Ob(f"C17/S/params-io/k{k}/{fmt}/threads{t}/{c}", ENGINE, IO_WHAT[c], functions=F_IO,
+                         bound=f"k={k} ({2 << k} G1 points + 2 G2 points), format {fmt}, rayon pool {t} (reference: pool 1); symbolic secret s, s^{1 << k} != 1; "
+                               "points = 40-byte term records", key=IO_KEY[c])
+            run.add(ob)
+            obs[(t, c)] = ob
+    try:
+        v = IoView(symf.sx("paramsio", k=k, fmt=fmt, pools=list(pools)))
+        if v.dag.ord_symbolic:
+            raise RuntimeError("value-order comparison of a symbolic term occurred")
+    except Exception as ex:
+        for ob in obs.values():
+            ob.set(INCONCLUSIVE, str(ex)[-300:])
+        return
+    for r in v.d["runs"]:
+        for c in ("bytes", "read", "rewrite"):
+            settle_io(run, obs[(r["threads"], c)], v, r, c, {"kind": "c17-io", "k": k, "fmt": fmt, "threads": r["threads"], "clause": c})
+
+
+def io_family():
+    quick = core.tier() == "quick"
+    ks = range(0, 4) if quick else range(0, 6)
+    fmts = ("processed", "rawbytes") if quick else ("processed", "rawbytes", "unchecked")
+    return [(k, f) for k in ks for f in fmts], (1, 3, 4, 5)
+
+
+def replay_io(payload):
+    """(1) the same real write_custom/read_custom at SymE in concrete mode (rnd1 := payload['s']); (2) the same on the real
+    BLS12-381 stack (`sx paramsio_real`): write under the pool, compare with the 1-thread bytes, read back, re-write."""
+    s0 = H(payload["s"])
+    k, fmt, t, clause = payload["k"], payload["fmt"], payload["threads"], payload["clause"]
+    v = IoView(symf.sx("paramsio", k=k, fmt=fmt, pools=[t], vals={"rnd1": hex(s0)}))
+    val = {v.ring.X: s0, v.ring.W: inv(pow(s0, 1 << k, P) - 1)}
+    pairs, problem = io_pairs(v, v.d["runs"][0], clause, by_value=val)
+    bad = sum(1 for a, b in pairs if a != b)
+    print(f"SymE concrete re-run (k={k}, {fmt}, pool {t}, clause {clause}): {problem or f'{bad} of {len(pairs)} equalities fail'}")
+    real = symf.sx("paramsio_real", k=k, fmt=fmt, pools=[t])["runs"][0]
+    rd = real.get("read") or {}
+    real_bad = {"bytes": bool(real.get("write_t_err")) or not real["bytes_equal"],
+                "read": rd.get("status") != "ok" or rd.get("unread") != 0 or not rd.get("same_accessors") or rd.get("max_k") != k,
+                "rewrite": rd.get("status") != "ok" or not (rd.get("rewrite_1_equal") and rd.get("rewrite_t_equal"))}[clause]
+    print(f"real BLS12-381 stack (ParamsKZG<Bls12>, k={k}, {fmt}, pool {t}): bytes equal to the 1-thread bytes = {real['bytes_equal']}, "
+          f"write error = {real.get('write_t_err')}, read_custom = {rd.get('status')} {rd.get('msg', '')[:80]}, same parameters = {rd.get('same_accessors')}, "
+          f"re-written bytes equal = {rd.get('rewrite_1_equal')}/{rd.get('rewrite_t_equal')}  => clause {clause} {'FAILS' if real_bad else 'holds'}")
+    return 1 if ((bad or problem) and real_bad) else 0
+
+
+
 def family():
     quick = core.tier() == "quick"
     kmax = 4 if quick else 6
-    pools = (1, 4) if quick else (1, 2, 3, 8, 16)
+    pools = (1, 3, 4, 5) if quick else (1, 2, 3, 4, 5, 8, 16)
     return [(k, kp, t) for k in range(1, kmax + 1) for kp in range(0, k + 1) for t in pools], kmax, pools
 
 
 def check(run):
     symf.build(run)
     jobs, kmax, pools = family()
-    if getattr(run, "only", None):
-        jobs = [j for j in jobs if run.only in f"k{j[0]}-to-{j[1]}/threads{j[2]}"] or jobs
     run.bounds.append(f"C17/S: parameters of size k = 1..{kmax}, downsize targets k' = 0..k, rayon pools {list(pools)}; toxic waste s symbolic "
                       "(all s with s^(2^k) != 1)")
     run.assumptions += [
@@ -272,8 +452,8 @@ def check(run):
         "C17: proving keys (ProvingKey::read/write, rebuilt polynomials and evaluator), 'produces and accepts exactly the same proofs' "
         "(cross-verification of proofs between original and reloaded keys needs the real prover over real curve points)",
         "C17: serialisation formats of ParamsKZG over real curve points (Processed / RawBytes / RawBytesUnchecked encodings of G1/G2, "
-        "subgroup and on-curve checks): at SymE a point is a 40-byte term record whatever the format; write_custom/read_custom run only "
-        "as the extraction device (their re-read is checked to re-write the same bytes, a concrete check, not an obligation)",
+        "subgroup and on-curve checks): at SymE a point is a 40-byte term record whatever the format; the params-io obligations decide the "
+        "framing (header, order, counts), pool independence and the read-back of write_custom/read_custom, not the point encodings",
         "C17: downsize(k') with k' > k: refused by `assert!(n < self.g_lagrange.len())` before anything is modified (observed: panic, object "
         "unchanged); k' >= 64 overflows `1 << new_k` (debug: panic; release: wraps). The documentation asks for a smaller k; not an obligation",
         "C17: unsafe_setup with s a 2^k-th root of unity panics in `(s - root_pow).invert().unwrap()` (excluded by the path condition)",
@@ -283,8 +463,16 @@ def check(run):
         "write_custom's second vector is compared with the g_lagrange() accessor inside sx; every query has a perturbed twin that must be sat; "
         "omega is re-derived from ROOT_OF_UNITY/S and checked primitive inside the g_lagrange queries")
     consts()
+    io_jobs, io_pools = io_family()
+    if getattr(run, "only", None):
+        dj = [j for j in jobs if run.only in f"downsize/k{j[0]}-to-{j[1]}/threads{j[2]}"]
+        ij = [j for j in io_jobs if run.only in f"params-io/k{j[0]}/{j[1]}/"]
+        if dj or ij:
+            jobs, io_jobs = dj, ij
+    run.bounds.append(f"C17/S params-io: k = {io_jobs[0][0] if io_jobs else 0}..{io_jobs[-1][0] if io_jobs else 0}, formats {sorted(set(j[1] for j in io_jobs))}, "
+                      f"rayon pools {list(io_pools)} for write_custom and read_custom (local pools, reference pool 1)")
     with ThreadPoolExecutor(max_workers=4) as ex:
-        futs = [ex.submit(check_pair, run, *j) for j in jobs]
+        futs = [ex.submit(check_pair, run, *j) for j in jobs] + [ex.submit(check_io, run, k, f, io_pools) for k, f in io_jobs]
         for f in futs:
             try:
                 f.result()
@@ -299,9 +487,11 @@ def check(run):
 def replay(payload):
     """Concrete re-run: the same real unsafe_setup / downsize / from_parts with rnd1 := payload['s']; every exponent is
     then a constant, compared with the definition evaluated here. Returns 1 if the named clause fails at that point."""
-    if payload.get("engine_part") not in (None, "S") or payload.get("kind") != "c17-params":
+    if payload.get("engine_part") not in (None, "S") or payload.get("kind") not in ("c17-params", "c17-io"):
         return None
     symf.build()
+    if payload["kind"] == "c17-io":
+        return replay_io(payload)
     s0 = H(payload["s"])
     d = symf.sx("params", k=payload["k"], kp=payload["kp"], threads=payload["threads"], vals={"rnd1": hex(s0)})
     v = View(d)
